@@ -52,6 +52,8 @@ TEXT = {
          BASE + "The transfer_bytes overrides are bounded only.", T),
  "C28": ("Proved for all inputs: a non-trivial basic index on an axis of unknown size is refused (slice_slices_and_integers, four typed specialisations), a rechunk along an unknown axis is accepted only when the layout is unchanged (_validate_rechunk, six specialisations), and the index helpers leave indices untouched on NaN axes. Bounded stand-in for the main statement: compute_chunk_sizes gives the true block sizes over the catalogue and boolean-mask selections, and every operation on an unknown-size array either refuses or equals NumPy (F9 is a recorded known finding). Proved in addition: the index helpers leave indices untouched on NaN axes (normalize_slice / posify_index / check_index).",
          "Mostly bounded; the proved part is small.", TB),
+ "C23": ("Bounded stand-in only (contracts on the real random routines, evaluated over Generator and RandomState, nine distributions, three layouts, eight derived programs and both compute orders): a seeded random array is one realization -- recomputing it, every derived program, and rebuilding from the same seed, shape and chunks give the same values; executing a collection's graph does not advance generators stored in it, while the next draw from the same generator object differs.",
+         "Nothing is proved: the property concerns mutable generator state consumed across a history of calls, which the function-level VC generator does not model. The NumPy bit generators are trusted.", TB),
  "C29": ("Static analysis of io/_from_array.py for all inputs: every read of the source object is confined to the ndarray-guarded branches. Bounded runs over recording sources check that builders (incl. in-place assignment of lazy values, where, map_blocks with user functions), metadata accessors and optimize() request nothing non-empty and call no user function on a non-empty block.",
          "User block functions and constructors are bounded only.", TF),
 }
@@ -65,7 +67,6 @@ NA = {
  "C09": "quantifies over histories of whole programs sharing the lowering cache and over configurations of whole runs",
  "C21": "equivalence of two graph encodings for all programs through a generic translator; the native half cannot be built offline",
  "C22": "Rust extension cannot be built offline (pyo3 not in the cargo cache) and no deductive verifier for Rust is installed",
- "C23": "depends on mutable RNG state consumed lazily across histories; not expressible as a function postcondition without modelling the generators",
 }
 
 m = json.load(open("/verif/MANIFEST.json"))
